@@ -14,7 +14,8 @@ DECIDES = ('(a) edge-triggered reset must be state-independent: the block of Hea
            'credits_to_issue=buffer_count, next_credit_to_issue=0, read/write pointers=0, buffers_filled=0, '
            'lrty/lbad/keepalive/ignore flags=0, and on usb_reset also expected_sequence_number=0 and next_header_to_ack=-1; '
            '(c) dispatch order LGOOD before LCRD before LBAD, and nothing is dispatched while disabled; (d) the link layer '
-           'wires enable <- ltssm.link_ready and usb_reset <- in_reset. ')
+           'wires enable <- ltssm.link_ready and usb_reset <- in_reset; (e) with a latched event pending the block fires whenever '
+           'its state is reached, whatever else holds there (in particular with enable high again). ')
 NOT_DECIDED = 'link commands that are still completed after the link went down; the partner side.'
 
 
